@@ -104,7 +104,7 @@ def check_nf1(case):
     inparen = any((words[i - 1][0] == 'lp' or words[i][0] == 'rp') and words[i][3] != '' for i in range(1, len(words)))
     res.nontrivial = runs and inparen
     res.labels = ['nf1', 'ws-run'] * 1 if runs else ['nf1']
-    res.labels += ['blank-in-paren'] * inparen + ['hazard:' + h for h in hz] + ['comment'] * any(w[0] == 'comment' for w in words)
+    res.labels += ['blank-in-paren'] * inparen + ['hazard:' + h for h in hz] + ['comment'] * any(w[0] == 'comment' for w in words) + ['comment-line-ends-removed'] * bool(case.get('comment_line_ends_removed'))
     res.sample = {'text': text[:200], 'options': opts, 'output': out[:200]}
     return res
 
@@ -209,6 +209,36 @@ def check_nf3(case):
     return res
 
 
+def no_comment_line_ends(case):
+    """main search of NF1/NF2 behind F8b/F9b: no line end next to a comment (construction): line comments become block
+    comments and the gaps around comments lose their line breaks"""
+    laid = case['lex']
+    n = 0
+    prev_comment = False
+    for l in laid:
+        if l[0] == 'mark':
+            continue
+        if l[0] == 'comment':
+            if l[1][-1:] in '\r\n' or l[1][:2] != '/*':
+                body = l[1].rstrip('\r\n').replace('*/', '* /')
+                l[1] = '/*' + body + '*/'
+                n += 1
+            g = l[3].get('gap', '')
+            if '\n' in g or '\r' in g:
+                l[3]['gap'] = g.replace('\r', ' ').replace('\n', ' ')
+                n += 1
+            prev_comment = True
+            continue
+        if prev_comment:
+            g = l[3].get('gap', '')
+            if '\n' in g or '\r' in g:
+                l[3]['gap'] = g.replace('\r', ' ').replace('\n', ' ')
+                n += 1
+        prev_comment = False
+    case['comment_line_ends_removed'] = n
+    return case
+
+
 REINDENT_SUB = ['indent_width', 'indent_tabs', 'indent_after_first', 'indent_columns', 'wrap_after', 'comma_first', 'compact']
 
 
@@ -219,15 +249,25 @@ def _scripts(sanitize, comments=10):
 
 
 def _nf1(tier):
-    san = HAZ_Q in excluded_hazards(ID)
-    return _fmt.script_cases(st.just({}), sanitize=san, max_statements=2, comments=10, inner=False)
+    ex = excluded_hazards(ID)
+    s = _fmt.script_cases(st.just({}), sanitize=HAZ_Q in ex, max_statements=2, comments=10, inner=False)
+    return s.map(no_comment_line_ends) if HAZ_CMNL in ex else s
+
+
+def _nf1_hazard(tier):
+    return _fmt.script_cases(st.just({}), sanitize=False, max_statements=2, comments=25, inner=False)
 
 
 def _nf2(tier):
     san = HAZ_Q in excluded_hazards(ID)
     o = st.one_of(st.just({'use_space_around_operators': True}), st.just({'use_space_around_operators': True}),
                   O.layout_options(require=['use_space_around_operators'], allow=['reindent', 'strip_whitespace'] + REINDENT_SUB))
-    return _fmt.script_cases(o, sanitize=san, max_statements=2, comments=8, inner=False)
+    s = _fmt.script_cases(o, sanitize=san, max_statements=2, comments=8, inner=False)
+    return s.map(no_comment_line_ends) if HAZ_CMOP in excluded_hazards(ID) else s
+
+
+def _nf2_hazard(tier):
+    return _fmt.script_cases(st.just({'use_space_around_operators': True}), sanitize=False, max_statements=2, comments=25, inner=False)
 
 
 def _nf3(tier):
@@ -241,5 +281,7 @@ def _nf3_hazard(tier):
 
 LEGS = [Leg('nf1', check=check_nf1, strategy=_nf1, examples={'quick': 2500, 'thorough': 50000}),
         Leg('nf2', check=check_nf2, strategy=_nf2, examples={'quick': 2500, 'thorough': 50000}),
+        Leg('nf1-hazard', check=check_nf1, strategy=_nf1_hazard, examples={'quick': 500, 'thorough': 10000}, hazard_leg=True),
+        Leg('nf2-hazard', check=check_nf2, strategy=_nf2_hazard, examples={'quick': 500, 'thorough': 10000}, hazard_leg=True),
         Leg('nf3', check=check_nf3, strategy=_nf3, examples={'quick': 2500, 'thorough': 50000}),
         Leg('nf3-hazard', check=check_nf3, strategy=_nf3_hazard, examples={'quick': 600, 'thorough': 10000}, hazard_leg=True)]
